@@ -105,17 +105,21 @@ func (i *Interpreter) eval(expr ast.Expr, env *environment.Environment, isRepl b
 			return nil, signal
 		}
 
+		// Evaluate the new value to assign (before the store is attempted,
+		// as for an element store)
+		newValue, signal := i.eval(e.Value, env, isRepl)
+		if signal.Type != ControlFlowNone {
+			return nil, signal
+		}
+		if utils.HadRuntimeError {
+			return nil, &ControlFlowSignal{Type: ControlFlowNone, LineNumber: 0}
+		}
+
 		// Ensure the object is a map
 		object, ok := objectValue.(map[string]interface{})
 		if !ok {
 			utils.RuntimeError(token.Token{Line: e.Line}, "Invalid object assignment. Not an object.")
 			return nil, &ControlFlowSignal{Type: ControlFlowNone, LineNumber: 0}
-		}
-
-		// Evaluate the new value to assign
-		newValue, signal := i.eval(e.Value, env, isRepl)
-		if signal.Type != ControlFlowNone {
-			return nil, signal
 		}
 
 		// Assign the new value to the property
@@ -272,19 +276,10 @@ func (i *Interpreter) eval(expr ast.Expr, env *environment.Environment, isRepl b
 			return nil, signal
 		}
 
-		// Ensure the callee is a callable function
-		function, ok := callee.(Callable)
-		if !ok {
-			utils.RuntimeError(e.Paren, "Can only call functions.")
-			return nil, &ControlFlowSignal{Type: ControlFlowNone, LineNumber: 0}
-		}
-
-		if function.Arity() != -1 && len(e.Arguments) != function.Arity() {
-			utils.RuntimeError(e.Paren, fmt.Sprintf("Expected %d arguments but %d.", function.Arity(), len(e.Arguments)))
-			return nil, &ControlFlowSignal{Type: ControlFlowNone, LineNumber: 0}
-		}
-
-		// Step 2: Evaluate each argument and collect them in a list
+		// Step 2: Evaluate each argument, left to right, and collect them in a
+		// list. Like every other operand they are evaluated before the
+		// operation itself is attempted, so a call that cannot be made (not a
+		// function, wrong number of arguments) fails only afterwards.
 		var arguments []interface{}
 		for _, arg := range e.Arguments {
 			argValue, signal := i.eval(arg, env, isRepl)
@@ -295,6 +290,18 @@ func (i *Interpreter) eval(expr ast.Expr, env *environment.Environment, isRepl b
 		}
 
 		if utils.HadRuntimeError {
+			return nil, &ControlFlowSignal{Type: ControlFlowNone, LineNumber: 0}
+		}
+
+		// Ensure the callee is a callable function
+		function, ok := callee.(Callable)
+		if !ok {
+			utils.RuntimeError(e.Paren, "Can only call functions.")
+			return nil, &ControlFlowSignal{Type: ControlFlowNone, LineNumber: 0}
+		}
+
+		if function.Arity() != -1 && len(e.Arguments) != function.Arity() {
+			utils.RuntimeError(e.Paren, fmt.Sprintf("Expected %d arguments but %d.", function.Arity(), len(e.Arguments)))
 			return nil, &ControlFlowSignal{Type: ControlFlowNone, LineNumber: 0}
 		}
 
